@@ -593,6 +593,9 @@ func runC18(cfg config) {
 				base := n.expr
 				if r.intn(10) == 0 {
 					base = stripIndexes(n.expr)
+				} else if strings.HasSuffix(base, "[0]") && r.intn(3) == 0 {
+					// the first of several parents reached through a prefix of the list instead of an index
+					base = strings.TrimSuffix(base, "[0]") + pick(r, []string{".take(1)", ".take(1)", ".first()", ".skip(0).take(1)"})
 				}
 				c.src = base + "." + renderName(f.JSONName())
 				pout, pcode := evaluate(base)
